@@ -2,4 +2,19 @@
 
 package verifsim
 
-import _ "verifsim/engines/parsim"
+import (
+	"os"
+	"testing"
+
+	"verifsim/engines/parsim"
+)
+
+// TestParsimChild is the body of the long-lived child processes the C18 engine
+// starts under a CPU-affinity mask (the worker count of the parallel merkle root
+// is runtime.NumCPU(), fixed at process start). It only runs when asked to.
+func TestParsimChild(t *testing.T) {
+	if os.Getenv("VERIF_PARSIM_CHILD") == "" {
+		t.Skip("not a parsim child")
+	}
+	parsim.ChildServe(t, os.Stdin, os.NewFile(3, "results"))
+}
